@@ -11,7 +11,7 @@
         ensures
             // what it reports as seen is the count it read last, and it read it in this call
             final(self).seen as nat == final(env).last_load_value@ && final(env).last_load_clock@ > old(env).clock@, // OBL:C13.config_watched.reports_the_count_it_read
-            !final(self).first_run,
+            !final(self).first_run, // OBL:C13.config_watched.only_the_first_call_returns_at_once
             // the first call never sleeps; a later call does not sleep if the count moved since the last report (the sleep precondition carries the rest)
             old(self).first_run ==> final(env).waits@ == old(env).waits@, // OBL:C13.config_watched.first_call_returns_at_once
 //@ loop 0
